@@ -40,6 +40,9 @@ enum Op {
     EnvVerified { x: usize, b: bool },
     EnvFlags { transfer: bool, create: bool },
     EnvRecovery { old: usize, new: Option<usize> },
+    /// probe on a rebuilt copy: 600000 ledgers pass without a call; balances, freezes, pause flag
+    /// and supply must read the same
+    IdleProbe,
 }
 
 #[derive(Clone, Debug, PartialEq, Eq, Hash)]
@@ -113,11 +116,15 @@ impl Rwa {
             Op::EnvVerified { x, b } => (i.ver.clone(), "set_verified", (u(*x), *b).into_val(e)),
             Op::EnvFlags { transfer, create } => (i.comp.clone(), "set_flags", (*transfer, *create).into_val(e)),
             Op::EnvRecovery { old, new } => (i.ver.clone(), "set_recovery", (u(*old), new.map(u)).into_val(e)),
+            Op::IdleProbe => unreachable!(),
         }
     }
 
     /// Execute; returns (accepted, return value, compliance notifications of this call).
     fn exec(&self, i: &Inst, op: &Op) -> (bool, Option<Val>, Vec<LogRec>) {
+        if matches!(op, Op::IdleProbe) {
+            return (false, None, vec![]);
+        }
         let (c, f, args) = self.call(i, op);
         let r = call_mocked(&i.e, &c, f, args);
         let ok = r.is_ok();
@@ -237,7 +244,7 @@ impl World for Rwa {
     }
 
     fn ops(&self, _i: &Inst, m: &St, _d: usize) -> Vec<Op> {
-        let mut v = vec![];
+        let mut v = vec![Op::IdleProbe];
         let dedup = |xs: Vec<i128>| {
             let mut out: Vec<i128> = vec![];
             for x in xs {
@@ -359,6 +366,7 @@ impl World for Rwa {
             Op::Pause => "pause",
             Op::Unpause => "unpause",
             Op::EnvVerified { .. } | Op::EnvFlags { .. } | Op::EnvRecovery { .. } => "env",
+            Op::IdleProbe => "idle-probe",
         }
         .to_string()
     }
@@ -368,6 +376,15 @@ impl World for Rwa {
     }
 
     fn step(&self, i: &mut Inst, m: &mut St, op: &Op, cx: &mut StepCtx<Self>) -> Result<bool, Violation> {
+        if matches!(op, Op::IdleProbe) {
+            let copy = cx.rebuild();
+            envx::advance(&copy.e, 600_000);
+            let mut o = self.observe(&copy, m)?;
+            o.allow = m.allow; // allowances may have expired meanwhile (C02's subject)
+            ensure!(o == *m, "state-survives-idle", "600000 ledgers without any call changed the token's state:\n     before {:?}\n     after  {:?}", m, o);
+            cx.stats.count("idle-probes", 1);
+            return Ok(false);
+        }
         let pre = m.clone();
         let (ok, ret, log) = self.exec(i, op);
         if !ok {
@@ -489,6 +506,7 @@ impl World for Rwa {
                 x.can_create = *create;
             }
             Op::EnvRecovery { old, new } => x.recovery[*old] = *new,
+            Op::IdleProbe => unreachable!(),
         }
         let mut post = self.observe(i, &x)?;
         cx.stats.count("getter-comparisons", (2 + 3 * N + N * N) as u64);
@@ -1021,7 +1039,7 @@ fn main() {
                     &["mint", "transfer", "transfer_from", "forced_transfer", "burn", "recover_balance", "set_address_frozen", "freeze_partial", "unfreeze_partial", "pause", "unpause", "env", "compliance.add_module", "compliance.remove_module"],
                     &["mint", "transfer", "transfer_from", "forced_transfer", "burn", "recover_balance", "freeze_partial", "unfreeze_partial", "pause", "unpause"],
                 );
-                rep.require_counter(&["#movement refused with exactly one of two registered modules denying", "#movement refused with an unverified party (real identity verifier)"]);
+                rep.require_counter(&["idle-probes", "#movement refused with exactly one of two registered modules denying", "#movement refused with an unverified party (real identity verifier)"]);
             }
         },
     );
